@@ -287,4 +287,18 @@ func readableSet.OnUpdate$1
 -- Event: a Variable[bool] whose transformation keeps true once it was set (it can only be triggered, never reset)
 func newEvent$1
   ensures r0 <==> (currentValue || newValue)
+
+-- OnUpdateWithContext (WithValue, WithNonEmptyValue): unsubscribing first ends the subscription - unsubscribe returns
+-- after a callback that is still running - and only then tears down the context of the last update; torn down earlier, a
+-- context created by that still-running callback would survive the unsubscribe
+func readableVariable.OnUpdateWithContext$2
+  instantiate Type: int
+  requires unsubscribeFromVariable != nil && *unsubscribeFromVariable != nil && previousUnsubscribedEvent != nil
+  callback unsubscribeFromVariable()
+    modifies everything
+  modifies everything
+  ghost local unsub Bool        -- the subscription has been ended by this call (ghost)
+  ghost at entry: unsub = false
+  ghost after call readableVariable.OnUpdateWithContext$2#unsubscribeFromVariable: unsub = true
+  ghost before call Event.Trigger: assert unsub
 @*/
